@@ -462,10 +462,14 @@ def stale_key(e, quirks=()):
     return "mp4:%s-stale%s" % (e["kind"], wide)
 
 
-def check_file(ctx, ref, expected, after, case, quirks):
+def check_file(ctx, ref, expected, after, case, quirks, top_names=None):
     """(i) + (ii) on the bytes `after`; returns True when the file is still well-formed"""
     top, errors = walk(after)
     ok = True
+    if not errors and top_names is not None and [n.name for n in top] != top_names:
+        # sizes tile, but not the way they did: e.g. the children of moov are top-level atoms now
+        errors = ["the sequence of top-level atoms changed: %r -> %r" % (
+            b" ".join(top_names).decode("latin-1"), b" ".join(n.name for n in top).decode("latin-1"))]
     if errors:
         ok = False
         key = "mp4:parent-size"
@@ -538,6 +542,7 @@ def run_history(ctx, name, data, expected, ops, lay_desc, quirks, model_jobs, sa
         return
     ref = media_reference(data, top0)
     media0 = mdat_payloads(data, top0)
+    names0 = [n.name for n in top0]
     kind, sess = timed(lambda: Session(data), 20)
     if kind != "ok":
         ctx.hist["skipped-mutagen-rejects-original"] += 1
@@ -562,10 +567,10 @@ def run_history(ctx, name, data, expected, ops, lay_desc, quirks, model_jobs, sa
             ctx.hist["raised:" + type(want).__name__] += 1
             if after != before:
                 # the save gave up half way: what is on disk now?
-                good = check_file(ctx, ref, expected, after, case, quirks + ["after-exception"])
+                good = check_file(ctx, ref, expected, after, case, quirks + ["after-exception"], names0)
                 if model_jobs is not None and model_fits(model_jobs, before, after):
                     model_jobs["lines"].append(model_request(before, after))
-                    model_jobs["expect"].append((after, case, "err:" + pyerr_name(want)))
+                    model_jobs["expect"].append((after, case, "err:" + pyerr_name(want), None))
                 ctx.violation("mp4:save-raises-midway:%s%s" % (type(want).__name__, (":" + qual) if qual else ""),
                               "%s raised %s after modifying the file (%s)" % (op[0], type(want).__name__, str(want)[:80]), case)
             elif not isinstance(want, MutagenError):
@@ -575,14 +580,18 @@ def run_history(ctx, name, data, expected, ops, lay_desc, quirks, model_jobs, sa
         if after == before:
             ctx.hist["no-change"] += 1
         # (i) (ii)
-        good = check_file(ctx, ref, expected, after, case, quirks)
+        nv = len(ctx.violations)
+        good = check_file(ctx, ref, expected, after, case, quirks, names0)
+        stale = any("-stale" in v["key"] for v in ctx.violations[nv:])
         top1, _ = walk(after)
         if good and mdat_payloads(after, top1) != media0:
             ctx.violation("mp4:media-bytes-changed", "the payload of an mdat atom changed", case)
-        # (iii)
-        k2, o2 = timed(lambda: sess.MP4(io.BytesIO(after)), 20)
-        rkey = "mp4:reload" + ("" if good else ":malformed" + "".join(":" + q for q in quirks))
-        if k2 != "ok":
+        # (iii) (on a file that is still a well-formed tree; a broken tree has been reported above)
+        k2, o2 = timed(lambda: sess.MP4(io.BytesIO(after)), 20) if good else ("skip", None)
+        rkey = "mp4:reload" + "".join(":" + q for q in quirks)
+        if k2 == "skip":
+            pass
+        elif k2 != "ok":
             ctx.violation(rkey, "file no longer loads: %r" % (o2,), case)
         else:
             got = snapshot(o2.tags)
@@ -592,7 +601,7 @@ def run_history(ctx, name, data, expected, ops, lay_desc, quirks, model_jobs, sa
         # model
         if model_jobs is not None and after != before and model_fits(model_jobs, before, after):
             model_jobs["lines"].append(model_request(before, after))
-            model_jobs["expect"].append((after, case, "ok"))
+            model_jobs["expect"].append((after, case, "ok", stale))
         if not good:
             return      # later steps start from a broken file: one report is enough
 
@@ -630,7 +639,7 @@ def layouts(ctx):
     add(ilst_first=True, free=("meta-far",))
     add(ilst_first=True, free=("after-ilst",))
     add(ilst_first=True)
-    n_rand = ctx.budget(60, 600)
+    n_rand = ctx.budget(140, 600)
     for _ in range(n_rand):
         udta = rng.choice(["none", "before", "after", "after"])
         meta = udta != "none" and rng.random() < 0.8
@@ -671,7 +680,8 @@ def quirks_of(lay, data):
     if lay is not None:
         if lay.zero_last and last is not None and last.name == b"moov":
             q.append("size0-moov")
-        if lay.ilst_first and ("meta-far" in lay.free) and lay.meta and lay.ilst != "none" and "before-ilst" not in lay.free:
+        if lay.ilst_first and ("meta-far" in lay.free) and lay.meta and lay.ilst != "none":
+            # (with a free atom before ilst the first save is fine and leaves ilst first; the next one hits it)
             q.append("ilst-first-free-last")
         if "table" in lay.wide:
             q.append("wide-table")
@@ -698,7 +708,7 @@ def flush_model(ctx, jobs):
     except RuntimeError as e:
         ctx.notes.append("driver: %s" % str(e)[:200])
         return
-    for line, (after, case, want_st) in zip(answers, jobs["expect"]):
+    for line, (after, case, want_st, stale) in zip(answers, jobs["expect"]):
         if line.startswith("bad-op"):
             ctx.hist["model:not-wired"] += 1
             continue
@@ -711,30 +721,83 @@ def flush_model(ctx, jobs):
             ctx.disagree("mp4 save", {k: case[k] for k in ("layout", "file", "history")},
                          model="%s off=%s old=%s len=%d first-difference-at=%d" % (st, f.get("off"), f.get("old"), len(m), i),
                          impl="%s len=%d" % (want_st, len(after)))
+        # the theorem's reach: where the hypotheses of chunk_offsets_follow_partial hold (covered=1) it predicts that
+        # every offset follows; the oracle has looked at the real file
+        if st == "ok" and stale is not None:
+            cov = f.get("covered") == "1"
+            ctx.hist["theorem:" + ("hypotheses-hold" if cov else "hypotheses-fail")] += 1
+            if cov and stale:
+                ctx.disagree("chunk_offsets_follow_partial applies, yet an offset went stale on the real file",
+                             {k: case[k] for k in ("layout", "file", "history")}, model="covered=1", impl="stale offset")
+            if not cov and not stale:
+                ctx.hist["theorem:hypotheses-fail-but-followed"] += 1
     jobs["lines"] = []; jobs["expect"] = []
 
 
+def real_tree(data):
+    """mutagen's own parse in the driver's notation, or 'err mutagen'"""
+    from mutagen.mp4._atom import Atoms, AtomError
+
+    def d(a):
+        kids = a.children or []
+        return "%s@%d+%d" % (a.name.hex(), a.offset, a.length) + ("(" + ";".join(d(k) for k in kids) + ")" if kids else "")
+    try:
+        atoms = Atoms(io.BytesIO(data))
+    except AtomError:
+        return "err mutagen"
+    return ";".join(d(a) for a in atoms.atoms) or "-"
+
+
 def check_walk_model(ctx, files):
-    """the model's strict walker against the independent one on the original files"""
+    """the model's parser (`parse`) against mutagen's `Atoms`, also on damaged files; the model's strict walker
+    and offset reader against the independent walker on the intact ones"""
     if not ctx.model_ok():
         return
-    lines = ["mp4 op=walk data=%s" % hx(d) for _, d in files]
+    rng = ctx.rng
+    cases = []
+    for name, d in files:
+        cases.append((name, d, True))
+    for name, d in files[:ctx.budget(25, 200)]:
+        for _ in range(4):
+            cut = rng.randrange(0, len(d))
+            cases.append((name + ":cut%d" % cut, d[:cut], False))
+        top, _ = walk(d)
+        nodes = [n for n, _ in iter_nodes(top)]
+        for _ in range(4):
+            n = rng.choice(nodes)
+            delta = rng.choice([-9, -1, 1, 7, 8, 16])
+            size = max(0, min(0xFFFF, n.size + delta)) if rng.random() < 0.8 else rng.choice([0, 1, 2, 7])
+            m = bytearray(d)
+            m[n.off:n.off + 4] = struct.pack(">I", size)
+            cases.append((name + ":size@%d=%d" % (n.off, size), bytes(m), False))
+    lines = ["mp4 op=walk data=%s" % hx(d) for _, d, _ in cases]
     try:
         ans = ctx.driver.ask(lines)
     except RuntimeError as e:
         ctx.notes.append("driver: %s" % str(e)[:200]); return
-    for (name, d), line in zip(files, ans):
+    for (name, d, intact), line in zip(cases, ans):
         if line.startswith("bad-op"):
             ctx.hist["model:not-wired"] += 1
             continue
         st, f = parse_fields(line)
-        top, errors = walk(d)
         ctx.traces_validated += 1
-        mine = ",".join(str(e["value"]) for e in offset_entries(d, top) if e["value"] is not None) or "-"
+        ctx.case(key=("parse", name), nontrivial=True, modelled=True)
+        kind, rt = timed(lambda: real_tree(d), 10)
+        if kind != "ok":
+            ctx.hist["parse:real-raises-" + type(rt).__name__] += 1
+            continue
+        ctx.hist["parse:" + ("ok" if rt != "err mutagen" else "AtomError")] += 1
+        mine = line if st != "ok" else f.get("tree")
+        if mine != rt:
+            ctx.disagree("mp4 parse", {"file": name, "hex": hx(d) if len(d) < 3000 else None}, model=line[:300], impl=rt[:300])
+        if not intact:
+            continue
+        top, errors = walk(d)
         if errors:
-            continue        # the model's walker knows mutagen's container set only; compared on well-formed files
-        if st != "ok" or f.get("offsets") != mine:
-            ctx.disagree("mp4 walk", {"file": name}, model=line[:300], impl="offsets=" + mine[:200])
+            continue        # the model's strict walker knows mutagen's container set only; compared on well-formed files
+        own = ",".join(str(e["value"]) for e in offset_entries(d, top) if e["value"] is not None) or "-"
+        if st != "ok" or f.get("offsets") != own or f.get("strict") != "1":
+            ctx.disagree("mp4 walk", {"file": name}, model=line[:300], impl="strict=1 offsets=" + own[:200])
 
 
 # the witnesses of Props/C10.lean (`moof_counterexample`, `size0_moov_counterexample`, `ilst_first_counterexample`):
@@ -800,25 +863,27 @@ def check_consts(ctx):
                                           ",".join("%s:%d" % (k.hex(), v) for k, v in sorted(_atom._SKIP_SIZE.items())))
     ctx.case(key="consts", nontrivial=True)
     if not ctx.model_ok():
-        return
+        return False
     try:
         line = ctx.driver.ask(["mp4 op=consts"])[0]
     except RuntimeError as e:
-        ctx.notes.append("driver: %s" % str(e)[:200]); return
+        ctx.notes.append("driver: %s" % str(e)[:200]); return False
     if line.startswith("bad-op"):
         ctx.hist["model:not-wired"] += 1
-        ctx.notes.append("the driver does not know `mp4` yet: model comparison skipped")
-        return
+        ctx.notes.append("the driver does not know `mp4` (Driver/Main.lean not wired): model comparison skipped")
+        return False
     ctx.traces_validated += 1
     if line != impl:
         ctx.disagree("mp4 consts", {"what": "_CONTAINERS/_SKIP_SIZE"}, model=line, impl=impl)
+    return True
 
 
 def run(ctx, thorough_histories=None):
     ctx.rule = RULE
     rng = ctx.rng
     jobs = {"lines": [], "expect": [], "limit": ctx.budget(60000, 200000), "big_left": ctx.budget(4, 40)} if ctx.model_ok() else None
-    check_consts(ctx)
+    if not check_consts(ctx):
+        jobs = None
     check_witnesses(ctx, jobs)
     lays = layouts(ctx)
     files = []
@@ -833,7 +898,7 @@ def run(ctx, thorough_histories=None):
         hists = []
         if li < 12 or li % 5 == 0:
             hists.append(FIXED_HISTORIES[li % len(FIXED_HISTORIES)])
-        for _ in range(ctx.budget(2, 5)):
+        for _ in range(ctx.budget(3, 5)):
             hists.append(gen_history(rng, ctx.budget(5, 10), big_ok=(rng.random() < ctx.budget(0.15, 0.5))))
         for hi, ops in enumerate(hists):
             run_history(ctx, "synth%d" % li, data, expected, ops, desc, q, jobs, sample=(li in (5, 17) and hi == 0))
@@ -848,7 +913,8 @@ def run(ctx, thorough_histories=None):
             run_history(ctx, fn, data, None, ops, {"sample": fn}, [], jobs, sample=(fn == "has-tags.m4a" and hi == 0))
         ctx.hist["layout:sample-file"] += 1
     flush_model(ctx, jobs)
-    check_walk_model(ctx, [(n, d) for n, d in files if len(d) < 200000][:ctx.budget(60, 600)])
+    if jobs is not None:
+        check_walk_model(ctx, [(n, d) for n, d in files if len(d) < 200000][:ctx.budget(80, 600)])
 
 
 def search(ctx):
